@@ -166,6 +166,7 @@ def run(ctx):
     ctx.anchor("tau-sign instances", ctx.rule_counts["C13.tau-sign"][0], 12)
 
     # ---- predicates -------------------------------------------------------------------------
+    refuted_by_points = _predicate_points(ctx, L)
     causal_sets = {}
     for g, mods in (("planar", ("is_parallel", "is_antiparallel", "is_perpendicular")),
                     ("spatial", ("is_parallel", "is_antiparallel", "is_perpendicular")),
@@ -184,6 +185,8 @@ def run(ctx):
                     # outside the linear shape: refute against the documented predicate on a grid of the lifted symbols, else give up (exit 2)
                     w = _predicate_counterexample(g, e, outs[0], (kind, (Fraction(kappa[0]), Fraction(kappa[1]))))
                     if w is None:
+                        if e.name in refuted_by_points:
+                            continue  # already reported with a concrete operand pair by C13.predicate-points
                         raise
                     ctx.ob("C13.predicate-shape", e.name, False,
                            f"predicate is {w['got']} at {w['at']} where the documented predicate ({text}, A = |tolerance|) is {w['want']}; {err}",
@@ -219,6 +222,101 @@ def run(ctx):
     ctx.anchor("entries with frozen singular-point conventions", nsp, 200)
     ctx.decline("sign of costheta/cottheta on theta- and eta-stored signatures is not decided here; those entries are proved equal to the z-stored entry (whose sign is decided by C13.z-sign) under C01.base-agreement")
     ctx.decline("behaviour exactly at interval boundaries in float64 (open vs closed endpoints are not distinguished)")
+
+
+def _stored(kinds, X, Y, Z, T):
+    import math
+
+    mag = math.sqrt(X * X + Y * Y + Z * Z)
+    rho = math.hypot(X, Y)
+    s = T * T - mag * mag
+    val = {"x": X, "y": Y, "rho": rho, "phi": math.atan2(Y, X), "z": Z, "theta": math.acos(max(-1.0, min(1.0, Z / mag))) if mag else 0.0,
+           "eta": math.asinh(Z / rho) if rho else 0.0, "t": T, "tau": math.copysign(math.sqrt(abs(s)), s)}
+    return [val[k] for k in kinds]
+
+
+def _predicate_points(ctx, L):
+    """every variant of the six predicates, whatever its algebraic form, evaluated at operands with a known cosine / tau2"""
+    import math
+
+    from .. import denote
+
+    ctx.rule("C13.predicate-points",
+             "each variant of is_parallel / is_antiparallel / is_perpendicular (2D, 3D) evaluated - point semantics of its inlined IR on the stored coordinates - at operand pairs "
+             "constructed with a known angle (0, 1e-3, 0.3, pi/2 -+ 1e-3, pi/2, 2.5, pi - 1e-3, pi; different lengths; three base directions) and tolerances of either sign, and each "
+             "variant of is_timelike / is_lightlike / is_spacelike at vectors with known t^2 - |p|^2, gives the documented truth value (points within 1e-7 of a documented boundary "
+             "are skipped; angles whose cosine is 1.25x inside / outside each documented threshold are included, so a threshold scaled by a wrong norm shows).  Complements C13.predicate-shape, which decides all operands but only for predicates in the linear shape")
+    inl = ir.Inliner()
+    bases = [(0.7, -1.3, 0.4), (-1.1, 0.6, -0.9), (0.3, 0.8, 1.7)]
+    angles = [0.0, 1e-3, 0.3, math.pi / 2 - 1e-3, math.pi / 2, math.pi / 2 + 1e-3, 2.5, math.pi - 1e-3, math.pi]
+    tols = [1e-5, 0.01, -0.01]
+    n = 0
+    refuted = set()
+    for g, mods in (("planar", ("is_parallel", "is_antiparallel", "is_perpendicular")), ("spatial", ("is_parallel", "is_antiparallel", "is_perpendicular")),
+                    ("lorentz", ("is_timelike", "is_lightlike", "is_spacelike"))):
+        for mod in mods:
+            kind, kappa, text = DOC[mod]
+            doc = (kind, (Fraction(kappa[0]), Fraction(kappa[1])))
+            for e in entries_of(L, f"vector._compute.{g}.{mod}"):
+                n += 1
+                node = ir.outputs(inl.inline(e.fn, e.args()))[0]
+                names = e.coord_names()
+                bad = None
+                cases = []
+                if g == "lorentz":
+                    for (X, Y, Z) in bases:
+                        mag2 = X * X + Y * Y + Z * Z
+                        for s_ in (-0.8 * mag2, -0.05, -1e-9, 0.0, 1e-9, 0.05, 2.0):
+                            cases.append((s_, _stored(e.kinds[0], X, Y, Z, math.sqrt(mag2 + s_))))
+                else:
+                    for (X, Y, Z) in bases:
+                        if g == "planar":
+                            Z = 0.0
+                        a = (X, Y, Z)
+                        na = math.sqrt(X * X + Y * Y + Z * Z)
+                        ah = tuple(c_ / na for c_ in a)
+                        # a unit vector perpendicular to a (in the plane for 2D)
+                        if g == "planar":
+                            nh = (-ah[1], ah[0], 0.0)
+                        else:
+                            ref = (0.0, 0.0, 1.0) if abs(ah[2]) < 0.9 else (1.0, 0.0, 0.0)
+                            cr = (ah[1] * ref[2] - ah[2] * ref[1], ah[2] * ref[0] - ah[0] * ref[2], ah[0] * ref[1] - ah[1] * ref[0])
+                            ncr = math.sqrt(sum(c_ * c_ for c_ in cr))
+                            nh = tuple(c_ / ncr for c_ in cr)
+                        near = []
+                        for A_ in (1e-5, 0.01):
+                            for c_ in (A_ / 1.25, 1.25 * A_, -A_ / 1.25, -1.25 * A_, 1 - A_ / 1.25, 1 - 1.25 * A_, -1 + A_ / 1.25, -1 + 1.25 * A_):
+                                near.append(math.acos(c_))
+                        for th in angles + near:
+                            for k in (0.6, 2.5):
+                                b = tuple(k * (math.cos(th) * ah[i] + math.sin(th) * nh[i]) for i in range(3))
+                                cases.append((math.cos(th), _stored(e.kinds[0], *a, 0.0) + _stored(e.kinds[1], *b, 0.0)))
+                for x, vals in cases:
+                    for tol in tols:
+                        A = abs(tol)
+                        iv = _intervals(doc, Fraction(A).limit_denominator(10 ** 9))
+                        if any(abs(x - float(b_)) < 1e-7 for lo, hi in iv for b_ in (lo, hi) if b_ not in (INF, -INF)):
+                            continue
+                        want = any((lo == -INF or float(lo) < x) and (hi == INF or x < float(hi)) for lo, hi in iv)
+                        env = dict(zip(names, vals))
+                        env["extra0"] = tol
+                        try:
+                            got = bool(denote.numeric(node, env))
+                        except (KeyError, ValueError, ZeroDivisionError, OverflowError, TypeError):
+                            continue
+                        if got != want:
+                            bad = {"quantity": "tau2" if g == "lorentz" else "cos", "value": x, "tolerance": tol, "got": got, "documented": want,
+                                   "stored": {k_: round(v_, 9) for k_, v_ in env.items()}}
+                            break
+                    if bad:
+                        break
+                if bad is not None:
+                    refuted.add(e.name)
+                ctx.ob("C13.predicate-points", e.name, bad is None,
+                       (f"returns {bad['got']} for {bad['quantity']} = {bad['value']:.6g}, tolerance {bad['tolerance']}; documented ({text}, A = |tolerance|): {bad['documented']}") if bad else "",
+                       bad, fn_where(e.fn))
+    ctx.anchor("predicate variants probed", n, 150)
+    return refuted
 
 
 def _forwarding(ctx):
